@@ -135,3 +135,29 @@ META["C05"] = {
                   "move steps, which is itself asserted (HIST).",
     "TECHNIQUE": "deterministic simulation: checkpoint sets as injected interrupts on a fixed seeded step history; history-equality and reference-interpolation oracles",
 }
+
+META["C04"] = {
+    "LEVEL": "exploration",
+    "TIERS": {"quick": 128, "thorough": 5000},
+    "WALLCAP": {"quick": 420, "thorough": 5400},
+    "RULE": ("One evaluation = one seeded scenario of two classes. conserve: a forced accept/reject history with checkpoints on "
+             "the real solver; the reported scale is recomputed from the whitened residuals the reference model obtains from the "
+             "real pre-state of every ACCEPTED step (rejected attempts must not count, the initial-constraint update counts "
+             "once), dynamic scales per step and per output, covariances vs an uncalibrated twin run. equivariance: twin runs "
+             "with base scale c*Lambda (c=2^k or c in [1e-6,1e6]) through natural adaptive runs or fixed grids. Distinct = "
+             "distinct (configuration cell, history digest, c); every evaluation compares >= 3 steps (non-trivial)."),
+    "COMPONENTS": {"real": ["solver / solver_mle / solver_dynamic", "all three strategies and state-space models",
+                            "solve_adaptive_save_at", "solve_fixed_grid", "test_util.solve_adaptive_save_every_step",
+                            "error estimators + controllers (equivariance class)"],
+                   "stub": ["history-forcing ErrorEstimator/Control in the conserve class"],
+                   "seam": ["probdiffeq.backend.flow (Python-stepped)", "recording Solver proxy"]},
+    "PROBES": ["init_constraint_term_counted", "unit_scale_twin_compared", "bitwise_same_history", "pow2_bitwise_means"],
+    "ASSUMPTIONS": ["equivariance only with exact initial state, no damping, no diffuse derivatives (the only setting in which "
+                    "the statement is mathematically true)", "margin rule: a twin run with a non-power-of-two c whose history "
+                    "differs is inconclusive if some acceptance quantity was within 1e-6 of one",
+                    "scale tolerances 1e-8 + 1e3*eps*kappa; skipped when ill-conditioned"],
+    "LEVEL_TEXT": "Seeded exploration of histories: conservation of the running RMS over accepted steps only, and twin-run "
+                  "equivariance under rescaling of the prior. Sampling, not proof.",
+    "LEVEL_NOTE": "Trusted: sim/refmodel.py for the whitened residuals (step-local, from the real pre-state), sim/embed.py.",
+    "TECHNIQUE": "deterministic simulation: forced accept/reject histories with conservation oracle over the recorded history; twin runs under rescaled prior",
+}
